@@ -58,6 +58,45 @@ inductive ProxyTest where
   | falsy
 deriving DecidableEq, Repr
 
+/-- how `Local.__init__` / `LocalStack.__init__` obtain the `ContextVar` that stores the payload when
+the caller passes none (`if context_var is None: context_var = <expr>`), read from the AST -/
+inductive CtorKind where
+  /-- `<expr>` is a direct call `ContextVar(...)` of the class imported from `contextvars`: every
+  instance gets a var that nothing else holds -/
+  | direct
+  /-- `<expr>` goes through some other callable (`fn`): the var may be shared, cached or looked up -/
+  | indirect (fn : String)
+deriving DecidableEq, Repr
+
+/-- which var a constructor call ends up with (the semantics `Model/LocalLife.lean` gives the kinds) -/
+inductive VarPolicy where
+  /-- a new var nobody else has -/
+  | ownFresh
+  /-- looked up in a table keyed by the var's *name*; the name is built from `id(self)`, and CPython
+  hands the address of a freed object to the next allocation of the same size -/
+  | memoByName
+deriving DecidableEq, Repr
+
+/-- the worst case the extracted fact admits -/
+def CtorKind.policy : CtorKind → VarPolicy
+  | .direct => .ownFresh
+  | .indirect _ => .memoByName
+
+/-- one `_ProxyLookup` attribute of `LocalProxy` (a forwarded special method / attribute) -/
+structure LookupEntry where
+  name : String
+  /-- a `_ProxyIOp`: the in-place operator is applied to the bound object and the *proxy* is returned -/
+  iop : Bool
+  /-- the call is re-done on the object through a function (`repr`, `operator.add`, ...) rather
+  than by `getattr(obj, name)` -/
+  hasF : Bool
+  hasFallback : Bool
+  /-- the name is an attribute, not a method: the fallback is called at once -/
+  isAttr : Bool
+  /-- canonical text of the fallback's value on an unbound proxy ("" without fallback) -/
+  fallback : String
+deriving DecidableEq, Repr
+
 /-- one control-flow path through a method body (branch conditions appear as `assume…`) -/
 abbrev Path := List Op
 
